@@ -72,6 +72,7 @@ class Cap:
     ev: int
     snap: Optional[str] = None      # name of the branch variable snapshotted
     snap_mut: bool = False          # ... through `&mut name` (needs the `mut` of `let mut name`)
+    ctl: str = ''                   # never-taken control flow of the CALLING function (macro form only): return / continue / break
     silent: bool = False            # block without a marker statement: `{ expr }` (the operand's own evaluation is the event)
     pre: str = ''                   # extra statements (nested invocation in a capture)
     pre_ref: str = ''
@@ -90,7 +91,7 @@ class Operand:
         mark = ('w::snap_m(%d, &mut %s);' if c.snap_mut else 'w::snap(%d, &%s);') % (c.ev, c.snap) if c.snap else 'w::cap(%d);' % c.ev
         if c.silent:
             return '{ %s }' % self.expr
-        return '{ %s%s %s }' % (c.pre, mark, self.expr)
+        return '{ %s%s%s %s }' % (c.pre, c.ctl, mark, self.expr)
 
     def ref_text(self):
         r = self.ref_expr
@@ -194,6 +195,7 @@ class Ctx:
         self.in_capture = False
         self.caps: List[Tuple[Cap, int, int, int]] = []   # (cap, inv, branch, step)
         self.nest_budget = profile.get('nest_depth', 0)
+        self.ctlflow = False     # some capture contains control flow of the calling function
         self.envmut = False      # one closure operand mutates the caller-side local `__cnt` (plain join!/try_join! only)
         self.kwvars = []         # (name, expr): callbacks bound to local variables named like handler keywords, before the macro
         self.multi_call = 0      # > 0 while generating the inner chain of a closure that is called per element
@@ -289,6 +291,12 @@ def new_cap(ctx):
     ctx.next_ev += 1
     ctx.evs.append(EvMeta(e, 'Cap', False, ctx.cur_inv, CALLER, ctx.cur_step))
     c = Cap(e)
+    if (ctx.p.get('ctlflow', 0.04) > 0 and ctx.cur_inv == 0 and not ctx.is_async and ctx.async_depth == 0 and ctx.cur_step != STEP_HANDLER
+            and ctx.chance(ctx.p.get('ctlflow', 0.04))):
+        # a block capture is a plain block of the calling function: `return`, `continue` and `break` in it refer to that function and
+        # to the loop the run function wraps around the macro (never taken; they only have to keep compiling)
+        c.ctl = ctx.rng.choice(['if false { return ::std::string::String::new(); } ', 'if false { continue; } ', 'if false { break; } '])
+        ctx.ctlflow = True
     ctx.caps.append((c, ctx.cur_inv, ctx.cur_branch, ctx.cur_step))
     if ctx.nest_budget > 0 and ctx.chance(ctx.p.get('nest_cap', 0.0)):
         saved = (ctx.cur_inv, ctx.cur_branch, ctx.cur_step)
@@ -1626,7 +1634,10 @@ class Program:
                 out.append('pub fn run_%d_%s() -> ::std::pin::Pin<Box<dyn ::std::future::Future<Output = String>>> {\n    %slet __fut = %s;\n    Box::pin(async move { let __res = __fut.await; %s })\n}' % (P, kname, pre, macro_expr(self.top, kname), rc))
                 runs.append('(Kind::%s, RunFn::Async(run_%d_%s))' % (kvar, P, kname))
             else:
-                out.append('pub fn run_%d_%s() -> String {\n    %slet __res = %s;\n    %s\n}' % (P, kname, pre, macro_expr(self.top, kname), rc))
+                if self.ctx.ctlflow:
+                    out.append('pub fn run_%d_%s() -> String {\n    %slet mut __slot = None; for __i in 0..1 { __slot = Some(%s); } let __res = __slot.unwrap();\n    %s\n}' % (P, kname, pre, macro_expr(self.top, kname), rc))
+                else:
+                    out.append('pub fn run_%d_%s() -> String {\n    %slet __res = %s;\n    %s\n}' % (P, kname, pre, macro_expr(self.top, kname), rc))
                 runs.append('(Kind::%s, RunFn::Sync(run_%d_%s))' % (kvar, P, kname))
         _wcount[0] = 0
         _FUT[0] = self.fut
